@@ -343,6 +343,7 @@ func c31Mk(e *c31Env, st *State, t []string, res *Result) string {
 		res.Tags = append(res.Tags, "mk:envelope>>payload")
 	}
 	must(e.store.CacheQueueTransaction(ver))
+	res.Nontrivial = true
 	return "ok"
 }
 
@@ -547,21 +548,36 @@ func c31Frame(e *c31Env, t []string, res *Result) string {
 		for i := 0; i < size; i += 4093 {
 			d[i] = byte(i)
 		}
+		type recvd struct {
+			m   *p2p.TransportMessage
+			err error
+		}
+		rc := make(chan recvd, 1)
+		if size >= 1 && size <= max { // the reader must drain while Send writes (flow control)
+			go func() {
+				s := server()
+				defer s.Close("done")
+				m, err := s.Receive()
+				rc <- recvd{m, err}
+			}()
+		}
 		if err := client.Send(d); err != nil {
 			if size >= 1 && size <= max {
-				res.PropKey, res.PropDesc = "C31:frame-roundtrip", fmt.Sprintf("Send rejects %d bytes", size)
+				res.PropKey, res.PropDesc = "C31:frame-roundtrip", fmt.Sprintf("Send fails on %d bytes: %v", size, err)
 			}
 			return "reject"
 		}
-		s := server()
-		defer s.Close("done")
-		m, err := s.Receive()
-		if err != nil || !bytes.Equal(m.Data, d) {
-			res.PropKey, res.PropDesc = "C31:frame-roundtrip", fmt.Sprintf("Receive(Send(d)) differs from d, |d|=%d err=%v", size, err)
+		if size < 1 || size > max {
+			res.PropKey, res.PropDesc = "C31:oversize-accepted", fmt.Sprintf("Send accepts %d bytes", size)
+			return "ok"
+		}
+		got := <-rc
+		if got.err != nil || !bytes.Equal(got.m.Data, d) {
+			res.PropKey, res.PropDesc = "C31:frame-roundtrip", fmt.Sprintf("Receive(Send(d)) differs from d, |d|=%d err=%v", size, got.err)
 			return "reject"
 		}
 		res.Nontrivial = true
-		return fmt.Sprintf("ok %d", len(m.Data))
+		return fmt.Sprintf("ok %d", len(got.m.Data))
 	case "bighdr": // header announcing size, no body: is a buffer of that size made?
 		limit, size := atoi(t[1]), atoi(t[2])
 		hdr := []byte{p2p.TransportMessageVersion, 0, 0, 0, 0, 0}
